@@ -17,6 +17,7 @@ func init() {
 	reg("C11", "C11.R1", "E2", "200 is written only after the body processing returned nil", 1, ruleHTTPSuccessWrite)
 	reg("C11", "C11.R2", "E2", "read loop exits, every chunk processed, carry-over threaded and flushed", 1, ruleHTTPReadLoop)
 	reg("C11", "C11.R3", "E2+E3", "acquire/release pairing of pooled buffers, gzip reader and source id; free list under its lock", 3, ruleHTTPPairing)
+	reg("C11", "C11.R5", "E6", "carry-over: starts empty for every request; whenever it is non-empty the line handed to In contains it", 1, ruleHTTPCarryOver)
 	reg("C11", "C11.R4", "E2", "chunk processor: one In per newline, carry-over appended otherwise, last chunk flushed", 1, ruleHTTPChunk)
 }
 
@@ -545,4 +546,176 @@ func ruleHTTPChunk(c *Ctx, r *Rule) {
 		}
 	}
 	r.Ob(okTail, name+"|tail-kept", fn.Pos(), "an unterminated tail is appended to the carry-over (readBuff[nlPos:]) and returned")
+}
+
+// derivedFromVal: v is built from root by slicing, append (as destination), φ or conversion.
+func derivedFromVal(v, root ssa.Value) bool {
+	seen := map[ssa.Value]bool{}
+	var walk func(v ssa.Value, d int) bool
+	walk = func(v ssa.Value, d int) bool {
+		if v == nil || d > 12 || seen[v] {
+			return false
+		}
+		seen[v] = true
+		if v == root {
+			return true
+		}
+		switch x := v.(type) {
+		case *ssa.Slice:
+			return walk(x.X, d+1)
+		case *ssa.Phi:
+			for _, e := range x.Edges {
+				if walk(e, d+1) {
+					return true
+				}
+			}
+		case *ssa.Call:
+			if b, ok := x.Call.Value.(*ssa.Builtin); ok && b.Name() == "append" {
+				return walk(x.Call.Args[0], d+1)
+			}
+		case *ssa.ChangeType:
+			return walk(x.X, d+1)
+		case *ssa.Convert:
+			return walk(x.X, d+1)
+		}
+		return false
+	}
+	return walk(v, 0)
+}
+
+func ruleHTTPCarryOver(c *Ctx, r *Rule) {
+	hr := c.httpRoles()
+	ro := c.roles()
+	if hr.bulk == nil || hr.chunk == nil {
+		r.Unresolved("body processing / chunk function")
+		return
+	}
+	r.Inst(1)
+	fn := hr.chunk
+	name := c.fnName(fn)
+	// the carry-over parameter: the []byte parameter a return value is derived from
+	var carry *ssa.Parameter
+	carryIdx := -1
+	for i, p := range fn.Params {
+		if _, ok := p.Type().Underlying().(*types.Slice); !ok {
+			continue
+		}
+		for _, ret := range returnsOf(fn) {
+			if derivedFromVal(retResults(ret)[0], p) {
+				carry, carryIdx = p, i
+			}
+		}
+	}
+	if carry == nil {
+		r.Ob(false, name+"|carry-param", fn.Pos(), "cannot identify the carry-over parameter of the chunk processor")
+		return
+	}
+	isEmptyLit := func(l lit) bool {
+		// len(X) == 0 with X derived from the carry-over
+		op, x, y, ok := cmpLit(l)
+		if !ok || op != token.EQL {
+			return false
+		}
+		k, isK := constInt(y)
+		call, isCall := x.(*ssa.Call)
+		if !isK || k != 0 || !isCall {
+			return false
+		}
+		b, isB := call.Call.Value.(*ssa.Builtin)
+		return isB && b.Name() == "len" && derivedFromVal(call.Call.Args[0], carry)
+	}
+	n := 0
+	for _, ci := range callsIn(fn) {
+		if !invokesMethod(ci, ro.ctlIn) {
+			continue
+		}
+		n++
+		// the data argument: the []byte argument of In
+		var data ssa.Value
+		for _, a := range ci.Common().Args {
+			if sl, ok := a.Type().Underlying().(*types.Slice); ok {
+				if b, ok := sl.Elem().Underlying().(*types.Basic); ok && b.Kind() == types.Uint8 {
+					data = a
+				}
+			}
+		}
+		if data == nil {
+			r.Ob(false, fmt.Sprintf("%s|in#%d|data", name, n), ci.Pos(), "no []byte argument")
+			continue
+		}
+		check := func(v ssa.Value, facts []clause) bool {
+			if derivedFromVal(v, carry) {
+				return true
+			}
+			for _, cl := range facts {
+				if len(cl) == 1 && isEmptyLit(cl[0]) {
+					return true
+				}
+			}
+			return false
+		}
+		ok := true
+		if phi, isPhi := data.(*ssa.Phi); isPhi && !derivedFromVal(data, carry) {
+			ok = check(data, c.guards(fn)[ci.Block()])
+		} else if isPhi {
+			// per incoming edge
+			for i, e := range phi.Edges {
+				if !check(e, append(append([]clause{}, c.edgeFactsOf(fn, phi.Block().Preds[i], phi.Block())...), c.guards(fn)[ci.Block()]...)) {
+					ok = false
+				}
+			}
+		} else {
+			ok = check(data, c.guards(fn)[ci.Block()])
+		}
+		r.Ob(ok, fmt.Sprintf("%s|in#%d|includes-carry-over", name, n), ci.Pos(), "the line handed to the pipeline contains the carry-over whenever the carry-over is non-empty (otherwise the head of a line split across reads is lost): data="+c.path(data))
+	}
+	// the carry-over starts empty: the value passed by the body function before its loop comes from a helper returning only zero-length slices
+	var first ssa.Value
+	for _, cs := range c.sitesOf(fn) {
+		if cs.Parent() != hr.bulk {
+			continue
+		}
+		a := cs.Common().Args[carryIdx]
+		if al := varOf(a); al != nil {
+			// first store into the cell
+			var st0 *ssa.Store
+			for _, ref := range *al.Referrers() {
+				if st, ok := ref.(*ssa.Store); ok && st.Addr == ssa.Value(al) {
+					if st0 == nil || st.Pos() < st0.Pos() {
+						st0 = st
+					}
+				}
+			}
+			if st0 != nil {
+				first = st0.Val
+			}
+		} else if phi, ok := a.(*ssa.Phi); ok {
+			for _, e := range phi.Edges {
+				if _, isCall := e.(*ssa.Call); isCall && e != cs.Value() {
+					first = e
+				}
+			}
+		}
+	}
+	call, isCall := first.(*ssa.Call)
+	if !isCall || call.Call.StaticCallee() == nil || !c.inModule(call.Call.StaticCallee()) {
+		r.Ob(false, c.fnName(hr.bulk)+"|initial-carry-over", hr.bulk.Pos(), "cannot resolve the initial carry-over value")
+		return
+	}
+	h := call.Call.StaticCallee()
+	for i, ret := range returnsOf(h) {
+		v := retResults(ret)[0]
+		zero := false
+		switch x := v.(type) {
+		case *ssa.Slice:
+			if k, ok := constInt(x.High); x.High != nil && ok && k == 0 {
+				zero = true
+			}
+		case *ssa.MakeSlice:
+			if k, ok := constInt(x.Len); ok && k == 0 {
+				zero = true
+			}
+		}
+		r.Ob(zero, fmt.Sprintf("%s|returns-empty#%d", c.fnName(h), i), ret.Pos(), "every request starts with an EMPTY carry-over: a pooled buffer is truncated to length 0 (bytes left by an aborted request must not be prepended to the next body): "+c.path(v))
+	}
 }
